@@ -214,15 +214,18 @@ def rotate? (site : Site) (r : List Str) (k : Nat) : M (List Str) :=
     | some x => pure (x :: (r.take k ++ r.drop (k + 1)))
     | none => throw (.fault site)
 
+/-- `dataframe::params`: `dialect` (delimiter, trim_ws, has_header, quoting), `filter`, `output_index` -/
 structure Params where
-  delim : Char := '\x00'           -- `'\x00'` = sniff
-  header : Option Bool := none     -- `none` = GUESS_HEADER
-  trimWs : Bool := false
-  outIdx : Option Nat := some 0
-  filter : List Str → Bool := fun _ => true
+  delim : Char := '\x00'           -- `dialect.delimiter`, `'\x00'` = sniff
+  header : Option Bool := none     -- `dialect.has_header`, `none` = GUESS_HEADER
+  trimWs : Bool := false           -- `dialect.trim_ws`
+  keepQuotes : Bool := false       -- `dialect.quoting == KEEP_QUOTES`
+  outIdx : Option Nat := some 0    -- `output_index`
+  hook : Hook := some              -- `filter` (`nullptr` = `some`)
 
 /-- the dialect `read_csv` ends up with: the sniffer runs when the header or the delimiter
-    is left open, and it always judges the header with the delimiter *it* guessed -/
+    is left open, and it always judges the header with the delimiter *it* guessed; each of the two
+    sniffed values is used only where the caller left the setting open (two independent `if`s) -/
 def resolveDialect {F} (cfg : Cfg) (o : NumOracle F) (p : Params) (lines : List Str) : Char × Bool :=
   if p.header.isNone || p.delim = '\x00' then
     let s := sniffer o cfg.sniffLines lines
@@ -263,7 +266,8 @@ def readCsvRecs {F} (cfg : Cfg) (o : NumOracle F) (outIdx : Option Nat) (hasHdr 
 def readCsv {F} (cfg : Cfg) (o : NumOracle F) (p : Params) (bytes : Str) : M (DF F) :=
   let lines := splitLines bytes
   let (d, h) := resolveDialect cfg o p lines
-  readCsvRecs cfg o p.outIdx h (records { delim := d, trimWs := p.trimWs } p.filter lines)
+  readCsvRecs cfg o p.outIdx h
+    (records { delim := d, trimWs := p.trimWs, keepQuotes := p.keepQuotes } p.hook lines)
 
 /-! ### `read_xrff` from the parsed document -/
 
@@ -333,6 +337,56 @@ def readXrff {F} (cfg : Cfg) (o : NumOracle F) (filter : List Str → Bool) : XD
         if cfg.guards && !v then throw (.exc .insufficientData)
         else pure (df, if v then df.examples.length else 0)
 
+/-- one `<instance>` with the hook as it is (`filter_hook_t` may rewrite the record): the hook is
+    handed the values in the order of the `<value>` elements, *before* the output value is moved to
+    the front; what it leaves in the record is what is rotated and read -/
+def xInstStepH {F} (cfg : Cfg) (o : NumOracle F) (hook : Hook) (k : Nat)
+    (df : DF F) (record : List Str) : M (DF F) :=
+  match hook record with
+  | none => pure df
+  | some r =>
+    (if cfg.guards && k ≥ r.length then pure r else rotate? .rotateXrff r k) >>= fun rec' =>
+    readRecord o df rec' false
+
+/-- `read_xrff` with the hook as it is; `p.dialect` and `p.output_index` are not looked at
+    ("used only when reading CSV files"), so they are not parameters here -/
+def readXrffH {F} (cfg : Cfg) (o : NumOracle F) (hook : Hook) : XDoc → M (DF F × Nat)
+  | .parseError => throw (.exc .dataFormat)
+  | .noAttributes => throw (.exc .dataFormat)
+  | .doc attrs instances =>
+    attrs.foldlM xAttrStep {} >>= fun st =>
+    if st.cols.isEmpty then throw (.exc .dataFormat)
+    else
+      let cols := if st.nOutput = 0 then st.cols.getLast?.toList ++ st.cols.dropLast else st.cols
+      let k := if st.nOutput = 0 then st.index - 1 else st.outputIndex
+      match instances with
+      | none => throw (.exc .dataFormat)
+      | some insts =>
+        insts.foldlM (xInstStepH cfg o hook k) { cols := cols } >>= fun df =>
+        isValid df >>= fun v =>
+        if cfg.guards && !v then throw (.exc .insufficientData)
+        else pure (df, if v then df.examples.length else 0)
+
+/-! ### `dataframe::read`: the format is chosen by the extension of the file name -/
+
+/-- `std::tolower` ("C" locale) -/
+def toLower (c : Char) : Char := if isUpper c then Char.ofNat (c.toNat + 32) else c
+
+/-- `vita::iequals`: `std::equal` over both ranges with `tolower(c1) == tolower(c2)` -/
+def iequals : Str → Str → Bool
+  | [], [] => true
+  | a :: as, b :: bs => toLower a == toLower b && iequals as bs
+  | _, _ => false
+
+/-- `iequals(ext, ".xrff") || iequals(ext, ".xml")` -/
+def isXrffExt (ext : Str) : Bool := iequals ext ".xrff".toList || iequals ext ".xml".toList
+
+/-- `dataframe::read(fn, p)` for a file with extension `ext` (`fn.extension()`), content `bytes`, which
+    tinyxml2 parses to `doc`: the dataframe and the returned count -/
+def readFile {F} (cfg : Cfg) (o : NumOracle F) (p : Params) (ext : Str) (bytes : Str) (doc : XDoc) : M (DF F × Nat) :=
+  if isXrffExt ext then readXrffH cfg o p.hook doc
+  else readCsv cfg o p bytes >>= fun df => pure (df, df.examples.length)
+
 /-! ### `category_set`, `setup_terminals`, variables -/
 
 structure VarSym where
@@ -374,6 +428,51 @@ def setupVarsGo (guards : Bool) (cats : List (Option Nat × Dom)) : List Col →
 def setupTerminals (cfg : Cfg) (strong : Bool) (cols : List Col) : M (List VarSym) :=
   if cols.length < 2 then throw (.exc .insufficientData)
   else pure (setupVarsGo cfg.guards (categories strong cols) cols.tail 1 0)
+
+/-- a terminal `setup_terminals` inserts: a variable, or the constant of one of the states of a
+    nominal column (`constant<D_STRING>`: named by the text between quotes, evaluates to the text) -/
+inductive TermSym
+  | var (v : VarSym)
+  | const (name val : Str) (category : Option Nat)
+  deriving DecidableEq, Repr
+
+/-- `constant<std::string>::quote_str` -/
+def quoteStr (s : Str) : Str := '"' :: (s ++ ['"'])
+
+/-- the `for (const auto &s : columns[i].states) switch (columns[i].domain)` loop: states are texts,
+    so `std::get<D_DOUBLE / D_INT>` throws when the column is numeric; nothing is inserted (and nothing
+    is thrown: the `default:` branch builds an exception object without throwing it) for `d_void` -/
+def stateConsts (c : Col) (cat : Option Nat) : M (List TermSym) :=
+  match c.dom with
+  | .str => pure (c.states.map (fun s => .const (quoteStr s) s cat))
+  | .void => pure []
+  | _ => if c.states.isEmpty then pure [] else throw (.exc .badVariant)
+
+/-- the whole loop of `setup_terminals`: per column with a variable, the variable followed by the
+    constants of its states (insertion order; a `std::set` holds the states, its order is that of the
+    texts – the driver prints them in the order of `Col.states`, the tie sorts both sides) -/
+def setupSymsGo (guards : Bool) (cats : List (Option Nat × Dom)) : List Col → Nat → Nat → M (List TermSym)
+  | [], _, _ => pure []
+  | c :: cs, i, v =>
+    if guards && c.dom = .void then setupSymsGo guards cats cs (i + 1) v
+    else
+      stateConsts c (cats.getD i (none, .void)).1 >>= fun ks =>
+      setupSymsGo guards cats cs (i + 1) (v + 1) >>= fun rest =>
+      pure (.var { name := varName c i, var := v, category := (cats.getD i (none, .void)).1 } :: (ks ++ rest))
+
+/-- every terminal `setup_terminals` inserts, in insertion order -/
+def setupSymbols (cfg : Cfg) (strong : Bool) (cols : List Col) : M (List TermSym) :=
+  if cols.length < 2 then throw (.exc .insufficientData)
+  else setupSymsGo cfg.guards (categories strong cols) cols.tail 1 0
+
+def TermSym.category : TermSym → Option Nat
+  | .var v => v.category
+  | .const _ _ c => c
+
+/-- `symbol_set::categories()` after `setup_terminals` on an empty symbol set: `views_` grows up to
+    the largest category a symbol was inserted with -/
+def ssetCategories (syms : List TermSym) : Nat :=
+  syms.foldl (fun n s => match s.category with | some c => max n (c + 1) | none => n) 0
 
 /-- `src_interpreter::fetch_var`: `(*example_)[i]`, an out-of-bounds read when `i` is too large -/
 def fetchVar {F} (e : Example F) (i : Nat) : M (Val F) :=
